@@ -120,6 +120,7 @@ type c15Trace struct {
 	sharesExceeded bool
 	blockedOwner   bool
 	servedTwice    bool
+	ptrStreamGone  bool // a stream was terminated while its epoch's pointer pointed into it
 	// per stream: distributed coins at the start of its current epoch, the most one epoch may hand out
 	// (sum of the real CalculateGaugeRewards over its records), and whether its records were replaced
 	epochBase   map[uint64]sdk.Coins
@@ -560,6 +561,20 @@ func (t *c15Trace) monitors(fl []string, class string, pre c15Snap, preLocks []l
 	op := fl[0]
 	post := t.w.snap()
 
+	// a terminated stream's last (partial) epoch naturally depends on how far the paging had got
+	if op == "term" && class == "ok" {
+		if id, err := strconv.ParseUint(fl[1], 10, 64); err == nil {
+			t.retargeted[id] = true
+			r.Hit("stream-terminated")
+			if st, err := sk.GetStreamByID(f.Ctx, id); err == nil {
+				if strings.HasPrefix(pre.ptrs[st.DistrEpochIdentifier], fl[1]+"/") {
+					t.ptrStreamGone = true
+					r.Hit("stream-terminated-under-pointer")
+				}
+			}
+		}
+	}
+
 	// exactly once per epoch: within one epoch a stream hands out at most the sum of its records' shares
 	{
 		sharesOf := func(s streamertypes.Stream) sdk.Coins {
@@ -824,10 +839,10 @@ func (t *c15Trace) monitors(fl []string, class string, pre c15Snap, preLocks []l
 				t.shadowOK = false
 				what := "other"
 				switch {
-				case t.everUnsorted:
+				case t.everUnsorted && t.servedTwice:
 					what = "unsorted-active-streams"
-				case t.midEpochJoin:
-					what = "stream-activated-mid-epoch"
+				case t.ptrStreamGone:
+					what = "pointer-stream-terminated"
 				}
 				r.Hit("paging-differs/" + what)
 				r.Violate("C15/paging_independent/"+what, fmt.Sprintf("at the end of a `%s` epoch stream %d has handed out %s with the configured per-block limits but %s with an unlimited budget",
@@ -1299,6 +1314,17 @@ var c15Witnesses = map[string][]string{
 		"fund 100 2000,0",
 		"mkstream 1000,0 1:1,3:1 NOW 1 1", "mkstream 1000,0 2:1 NOW 1 1",
 		"begin 3601", "end", "replace 1 3:1", "begin 10", "end", "begin 10", "end",
+	},
+	// governance terminates stream 1 while the hour pointer points into it (limit 1): the bisection resolves the
+	// pointer (1, gauge 2) to stream 2 and skips stream 2's gauge 1 for this epoch
+	"terminate-under-pointer": {
+		"maxiter 1",
+		"begin 1", "end",
+		"mkgauge 0 1 0 1 0,0 NOW 1", "mkgauge 0 1 0 1 0,0 NOW 1", "mkgauge 0 1 0 1 0,0 NOW 1",
+		"lock 1 0 100 3600",
+		"fund 100 6000,0",
+		"mkstream 3000,0 1:1,2:1,3:1 NOW 1 2", "mkstream 3000,0 1:1,2:1,3:1 NOW 1 2",
+		"begin 3601", "end", "term 1", "begin 10", "end", "begin 10", "end", "begin 10", "end", "begin 3601", "end",
 	},
 	// a stream that becomes active at another identifier's epoch start is served in its first (partial)
 	// epoch only if the pointer of its own epoch has not yet reached the end
